@@ -159,6 +159,12 @@ def run_fmt(arg):
             for n_, (lo, hi, idx_) in enumerate([(300.0, 41000.0, 1), (-1.0, -1.0, 2), (5.0, 10.0, 3), (10.0, 100.0, 1)]):
                 reacs.append(Reaction(["H", "H2"], ["H2", "H"], lo, hi, K, 0.0, 0.0, ReactionType.GAS_TWOBODY, idx_))
                 kept.append((f"shared-index/{n_}", (lo, hi), ("shared-index", n_)))
+            # bounds taken from a numpy table (np.float64 / np.float32 scalars): the guard is still plain C
+            import numpy as np
+
+            for n_, (lo, hi) in enumerate([(np.float64(10.0), np.float64(300.0)), (np.float32(300.0), np.float64(-1.0))]):
+                reacs.append(Reaction(["H", "H2"], ["H2", "H"], lo, hi, K, 0.0, 0.0, ReactionType.GAS_TWOBODY, len(reacs) + 1))
+                kept.append((f"numpy-bounds/{n_}", (float(lo), float(hi)), ("numpy-bounds", n_)))
             with quiet():
                 net = Network(reacs)
         else:
